@@ -1,11 +1,18 @@
 """shared plumbing of the bounded stand-ins (run under /venv/bin/python on the real code)"""
-import argparse, json, sys, time, traceback
+import argparse, json, os, sys, time, traceback, zlib
 
 
 class Report:
     def __init__(self, driver, rule, exhaustive=False, bound=''):
         self.d = dict(driver=driver, rule=rule, bound=bound, exhaustive=exhaustive, evaluations=0, distinct_nontrivial=0, samples=[], failures=[], label='bounded (run-time contracts on the real code; never counted as proved)')
         self.seen = set(); self.keys = set(); self.t0 = time.time()
+
+    def mine(self, key):
+        """sharding: the check may run a driver as n processes (env VERIF_SHARD='i/n'); a case belongs to exactly one of them, chosen by a stable hash of its key"""
+        sh = os.environ.get('VERIF_SHARD')
+        if not sh: return True
+        i, n = (int(x) for x in sh.split('/'))
+        return zlib.crc32(repr(key).encode()) % n == i
 
     def case(self, key, nontrivial=True, sample=None):
         self.d['evaluations'] += 1
